@@ -2,10 +2,15 @@
    Property theorems only; every proof is `exact <lemma of Queue/ProofsC04.v>`. *)
 From PV Require Import Queue.Model Queue.Spec Queue.ProofsC04.
 
-(* What one pause(t) does, for t not after the clock: exactly the logged (= live) trials ending after t are
-   notified as removed, newest first, each once; they leave the log; each gives one trial back to its stimulus;
-   nothing is pending afterwards and the clock is t. *)
-Theorem C04_pause_exact : forall q t q' ev err,
+(* What one pause(t) does in any state a history can reach, for t not after the clock: exactly the logged
+   (= live) trials ending after t are notified as removed, newest first, each once; they leave the log; each
+   gives one trial back to its stimulus; nothing is pending afterwards and the clock is t.
+   (The state is quantified over reachable states because the trials clause needs every log key to be an index
+   of the data; for an arbitrary qstate record it fails: Queue/ProofsC04.v, pause_exact_unconstrained_refuted.
+   The hypothesis-free variants are pause_exact_general / pause_exact_valid there.) *)
+Theorem C04_pause_exact : forall p es ch pm ops q ev0 t q' ev err,
+  wf_queue p es = true -> wf_hist all_rep (qinit p es ch pm) ops = true ->
+  run_hist all_rep (qinit p es ch pm) ops = Some (q, ev0) ->
   0 <= t <= q_samples q -> pause all_rep q (Some t) = (q', ev, err) ->
   err = false /\
   ev = map (fun i => ERemoved (i_key i) (i_t0 i)) (filter (fun i => ends_after i t) (rev (q_generated q))) /\
